@@ -737,7 +737,7 @@ func (obj *DenseReal64MatrixIterator) GET() *Real64 {
   return obj.m.AT(obj.i, obj.j)
 }
 func (obj *DenseReal64MatrixIterator) Ok() bool {
-  return obj.i < obj.m.rowMax && obj.j < obj.m.colMax
+  return obj.i < obj.m.rows && obj.j < obj.m.cols
 }
 func (obj *DenseReal64MatrixIterator) next() {
   if obj.j == obj.m.cols-1 {
